@@ -207,11 +207,7 @@ def tReadOptionalUInt : L (Option Nat) := do
   tSkipSpace inp
   tReadIntWithoutSign inp 32 intMax
 
-/-- `TextReader::ReadUInt(int &accumulator)` -/
-def tReadUIntAcc (acc : Nat) : L (Nat × Nat) := do
-  let v ← tReadUInt inp
-  if G.accOverflow acc v then tReport inp .ioverflow
-  else pure (v, acc + v)
+-- `TextReader::ReadUInt(int &accumulator)`: `tReadUIntAcc` in ModelSites.lean (its data flow is generated code)
 
 /-- `TextReader::ReadInt<Int>()` via `DoReadOptionalInt` (`bits` = 16 for `short`, 32 for `int`) -/
 def tReadInt (bits : Nat) : L Int := do
